@@ -92,7 +92,76 @@ def run_config(chk, tier, config):
                nontrivial=False)
         chk.extra["representation_changed"] = True
     rounds_loop(chk, crate, g)
+    surface(chk, crate, g, iD)
     sequences(chk, tier, crate, g, iD)
+
+
+
+ANALYSED_OPS = {"next_u32", "next_u64", "fill_bytes", "try_next_u32", "try_next_u64", "try_fill_bytes", "clone", "clone_from"}
+
+
+def surface(chk, crate, g, iD):
+    """R10: the bookkeeping is decided for the operations of the sequence rule (next_u32, next_u64, fill_bytes, clone, clone_from).
+    (a) a `Copy` impl would duplicate a generator without the reset that `clone` performs; (b) any other public method that
+    takes `&mut self` / `self` and reaches gen_entropy or reads the pool hands out collected data outside that analysis"""
+    copy = [im for im in crate.impls_of(g.path) if im.get("trait") == "core::marker::Copy"]
+    chk.ob("R10", "JitterRng|not Copy (a by-value copy would bypass Clone's reset of the pending half)", not copy, "impl Copy present",
+           nontrivial=bool(copy))
+    gen_def = GEN
+    other = []
+    tys = crate.tys
+    for im in crate.impls_of(g.path):
+        tr = im.get("trait")
+        for name, key in sorted(im["methods"].items()):
+            if name in ANALYSED_OPS and tr in (RNGCORE, "rand_core::TryRngCore", "core::clone::Clone"):
+                continue
+            b = crate.bodies.get(key)
+            if b is None or b["argc"] < 1 or (tr is None and not b.get("pub", True)):
+                continue
+            t1 = tys[b["locals"][1]]
+            selfish = (t1["k"] == "ref" and t1["mut"] and tys[t1["to"]].get("def") == g.path) or (t1["k"] == "adt" and t1.get("def") == g.path)
+            if not selfish:
+                continue
+            seen, leaves = sq.reachable(crate.bodies, [key], None, crate.tys)
+            reaches = any(crate.bodies[k]["def"] == gen_def for k in seen)
+            reads_pool = False
+            for k in seen:
+                bb = crate.bodies[k]
+                if bb["krate"] != crate.name:
+                    continue
+                for _, st_ in sq.iter_stmts(bb):
+                    if st_[0] == "a" and _reads_field(crate, bb, st_[2], g.path, iD):
+                        reads_pool = True
+            if (reaches or reads_pool) and name not in ("gen_entropy",):
+                other.append(name)
+    # today: timer_stats (reads the pool through lfsr_time), test_timer (the same) - both return timing figures, not pool data
+    known = {"timer_stats", "test_timer", "new_with_timer", "new"}
+    extra = sorted(set(other) - known)
+    chk.ob("R10", "JitterRng|no public operation outside the analysed ones reaches gen_entropy or reads the pool", not extra,
+           "not covered by the sequence rule: %s" % extra, sample={"other_pool_touching_methods": sorted(set(other))})
+
+
+def _reads_field(crate, body, rv, adt_path, fidx):
+    """does the rvalue read field fidx of the ADT (through any projection)?"""
+    found = [False]
+
+    def place(p):
+        ty = body["locals"][p[0]]
+        for e in p[1]:
+            t = crate.tys[ty]
+            if e[0] == "d":
+                ty = t["to"]
+            elif e[0] == "f":
+                if t["k"] == "adt" and t["def"] == adt_path and e[1] == fidx:
+                    found[0] = True
+                ty = e[2]
+            elif e[0] in ("i", "c"):
+                ty = t["elem"]
+
+    for o in sq.operands_of_rvalue(rv):
+        if o[0] in ("cp", "mv"):
+            place(o[1])
+    return found[0]
 
 
 def structural(chk, tier, crate, g, iH, iD):
